@@ -39,7 +39,7 @@ def config(rng, tier):
     deep = tier == "thorough"
     ops = sorted(set(ALL_OPS))
     disabled = sorted(o for o in ops if rng.random() < 0.3 and o not in ("ctor_interval", "ctor_point"))
-    regime = rng.choice(["grid", "grid", "decimal", "decimal"])
+    regime = rng.choice(["grid", "grid", "grid", "decimal", "decimal", "decimal", "extreme"])
     return {
         "regime": regime,
         "ulps": regime == "decimal" and rng.random() < 0.5,
@@ -50,7 +50,7 @@ def config(rng, tier):
         "disabled": disabled,
         "mix": rng.choice(["both", "both", "interval", "point"]),
         # size class: mostly small tiers, sometimes tiers past any plausible small-n/large-n switch
-        "maxn": rng.choice([8] * 16 + [24, 24, 40, 120]),
+        "maxn": rng.choice([8] * 32 + [24, 24, 24, 40, 40, 120, 120, 320]),
     }
 
 
